@@ -38,6 +38,10 @@ F1 ==
        Doc("F1", "int-excl", [type |-> "integer", exclusiveMinimum |-> JInt(0), exclusiveMaximum |-> JInt(256)]),
        Doc("F1", "any", << >>), Doc("F1", "true", STrue) >>
 
+(* every recognised integer format with a lower bound of exactly 1 (the NonZero selection) *)
+F1nz == [i \in DOMAIN IntFormats |->
+           Doc("F1", "nz-" \o IntFormats[i], [type |-> "integer", format |-> IntFormats[i], minimum |-> JInt(1)])]
+
 F2 == << Doc("F2", "min1", [type |-> "string", minLength |-> 1]),
          Doc("F2", "max2", [type |-> "string", maxLength |-> 2]),
          Doc("F2", "min1max3", [type |-> "string", minLength |-> 1, maxLength |-> 3]),
@@ -205,6 +209,9 @@ F10 == << Doc("F10", "scalars", SAnyOf(<< SInt, SStr >>)),
           Doc("F10", "typelist-vs-single", SAnyOf(<< [types |-> <<"string", "null">>], SInt >>)),
           Doc("F10", "single-vs-typelist", SAnyOf(<< SBool, [types |-> <<"integer", "string">>] >>)),
           Doc("F10", "typelists-disjoint", SAnyOf(<< [types |-> <<"integer", "null">>], [types |-> <<"string", "boolean">>] >>)),
+          Doc("F10", "objs-one-pins-tag", SAnyOf(<< SObj(Props2("kind", Tag(<<"x">>), "a", SInt), {"kind", "a"}),
+                                                     SObj(Props3("kind", SStr, "a", SInt, "b", SStr), {"kind", "a"}) >>)),
+          Doc("F10", "objs-overlap-optional", SAnyOf(<< SObj(Props1("a", SInt), {}), SObj(Props2("a", SInt, "b", SStr), {}) >>)),
           Doc("F10", "enum-consts", SAnyOf(<< EnumS(<<JS(<<"a">>)>>), EnumS(<<JS(<<"b">>)>>) >>)) >>
 
 F11 == << Doc("F11", "two-objs", SAllOf(<< SObj(Props1("a", SInt), {"a"}), SObj(Props1("b", SStr), {}) >>)),
@@ -265,5 +272,5 @@ ArrProp(req, uniq, mn, mx) ==
 AFam == LET cs == SetToSeq(BOOLEAN \X BOOLEAN \X {-1, 0, 1} \X {-1, 2})
         IN [i \in DOMAIN cs |-> ArrProp(cs[i][1], cs[i][2], cs[i][3], cs[i][4])]
 
-QuickUniverse == F1 \o F2 \o F3 \o F4 \o F5 \o F5d \o F6 \o F7 \o F8 \o F9 \o F9b \o F10 \o Fix11 \o N \o AFam
+QuickUniverse == F1 \o F1nz \o F2 \o F3 \o F4 \o F5 \o F5d \o F6 \o F7 \o F8 \o F9 \o F9b \o F10 \o Fix11 \o N \o AFam
 =============================================================================
